@@ -57,8 +57,24 @@ def random_script(rng, level, size, skip, mx, n):
             steps.append({"a": "recv", "s": s, "w": w % 65536})            # late arrival (maybe far outside the window)
         elif r < 0.84:
             steps.append({"a": "recv", "s": s, "w": (pos[s] - rng.choice([size - 1, size, size + 1, 2 * size, 40000])) % 65536})
-        elif r < 0.97:
+        elif r < 0.96:
             steps.append({"a": "tick"})
+        elif r < 0.97 and level == "icpt":
+            # the stream is unbound, ANOTHER stream is bound afterwards, and stragglers are still read through the reader of
+            # the unbound binding (numbers around the new stream's position): they must not touch any stream
+            k = ssrcs.index(s)
+            s2 = s + 10 if s + 10 < 60 else s
+            if s2 != s:
+                steps += [{"a": "unbind", "s": s}, {"a": "tick"}, {"a": "bind", "s": s2, "nack": True}]
+                ssrcs[k] = s2
+                pos[s2], pending[s2] = rng.choice([pos[s], rng.randrange(65536)]), []
+                for d in (0, 1, 2, 4):
+                    pos[s2] += 1
+                    steps.append({"a": "recv", "s": s2, "w": (pos[s2] + d) % 65536})
+                pos[s2] += 4
+                for d in rng.sample([-6, -5, -3, -1, 1, 3, 40], 3):
+                    steps.append({"a": "recv", "s": s, "w": (pos[s2] + d) % 65536, "stale": True})
+                steps.append({"a": "tick"})
         elif r < 0.985:
             if rng.random() < 0.7:
                 steps.append({"a": "unbind", "s": s})
@@ -75,6 +91,26 @@ def random_script(rng, level, size, skip, mx, n):
     if level == "icpt" and rng.random() < 0.3:          # GeneratorStreamsFilter replaces the default feedback-list test
         sc["filt"] = rng.choice(["all", "odd", "none"])
     return sc
+
+
+def cycle_script(rng, level, size, mx):
+    """A number whose NACK count reached the limit is recovered; the stream then runs loss-free for a whole 2^16 cycle (ticks
+    in between see nothing missing); the SAME wire number is lost again and must be requested again, `mx` times."""
+    base = rng.choice([100, 65000, 33000])
+    steps = [{"a": "bind", "s": 1, "nack": True}, {"a": "bind", "s": 2, "nack": True}]
+    for i in range(5):
+        steps.append({"a": "recv", "s": 1, "w": (base + i) % 65536})
+    steps.append({"a": "recv", "s": 1, "w": (base + 6) % 65536})            # base + 5 is lost
+    steps += [{"a": "tick"}] * (mx + 1)
+    steps.append({"a": "recv", "s": 1, "w": (base + 5) % 65536})            # ... and recovered
+    steps += [{"a": "tick"}, {"a": "recv", "s": 2, "w": 7}, {"a": "tick"}]
+    for i in range(7, 65536 + 5):
+        steps.append({"a": "recv", "s": 1, "w": (base + i) % 65536})
+        if i % 9000 == 0:
+            steps.append({"a": "tick"})
+    steps.append({"a": "recv", "s": 1, "w": (base + 65536 + 6) % 65536})    # the same wire number is lost again
+    steps += [{"a": "tick"}] * (mx + 2)
+    return {"level": level, "size": size, "skip": 0, "max": mx, "steps": steps}
 
 
 def run_batch(ctx, scripts, tag):
@@ -138,6 +174,9 @@ def run(ctx):
         rs.append(random_script(rng, "log", size, rng.choice([0, 2]), 0, n))
         rs.append(random_script(rng, "icpt", size, rng.choice([0, 2]), rng.choice([0, 2]), n))
     run_batch(ctx, [vlib.remap_ids(sc, rng.choice(vlib.SSRC_TABLES)) for sc in rs], "T-random")
+    # (T) a whole sequence-number cycle without loss between two losses of the same wire number
+    run_batch(ctx, [cycle_script(rng, "icpt", 64, rng.choice([1, 2]))] + ([] if ctx.quick else [cycle_script(rng, "icpt", 512, 3)]),
+              "T-cycle")
     ctx.assumptions += [
         "the TLA+ module NackGen is the reading of the property (window = the `size` numbers up to the highest received; "
         "a wire number denotes the true number nearest to the highest, ties late; packets outside the window have no effect)",
